@@ -872,7 +872,16 @@ func (r *sessRun) quiesce() {
 		st := erpc.VerifStatus(r.sess)
 		return st == 1 || st == 3 || st == 5
 	})
-	time.Sleep(2 * time.Millisecond)
+	// ... until the trace has stopped growing (a fixed short sleep is not enough on a loaded machine)
+	last, stable := r.rec.Count(), 0
+	for i := 0; i < 300 && stable < 4; i++ {
+		time.Sleep(500 * time.Microsecond)
+		if now := r.rec.Count(); now == last {
+			stable++
+		} else {
+			last, stable = now, 0
+		}
+	}
 	pendingCalls := []string{}
 	for c, co := range r.calls {
 		select {
